@@ -58,6 +58,8 @@ class Gen:
         self.out = []
         self.depth = 0
         self.ml = multiline_strings
+        # a program either has no multi-line literals (most) or has them at a visible rate
+        self.ml_rate = 0.0 if rng.random() < 0.7 else 0.5
         self.odd = odd_comments
         self.budget = size * 12
 
@@ -116,7 +118,7 @@ class Gen:
                               "a:B", "1+2", "tab\\tsep", "q\\\"q", "back\\\\slash", "nl\\n"])
         elif r < 0.75:
             body = self.pick(NONASCII) + self.pick(["", " ", "x"]) + self.pick(NONASCII + [""])
-        elif self.ml:
+        elif self.ml and self.rng.random() < self.ml_rate:
             # multi-line literal: real newlines inside the token, with leading blanks on the continuation lines
             parts = [self.pick(["x", "first", "", "a b", "é"])]
             for _ in range(self.rng.randint(1, 3)):
